@@ -54,7 +54,13 @@ MODULES = {
     "Stats": "scale_stats",
     "AllInOne": "volume_to_precomputed_pyramid",
     "Slices": "slices_to_precomputed",
+    "Mesh": "mesh_to_precomputed",
+    "Link": "link_mesh_fragments",
 }
+MESH_DIRS = ("m1", "m2")
+# label tables of link-mesh-fragments (spec/Pipeline.tla TableRows)
+TABLES = {"t1": [[1, ["f1"]]], "t2": [[1, ["f1"]], [2, ["f1", "f2"]]]}
+_LINK_NAME = re.compile(r"^(\d+):0$")
 LAYOUTS = {"deep-gz": [], "deep-plain": ["--no-gzip"], "flat-gz": ["--flat"],
            "flat-plain": ["--flat", "--no-gzip"]}
 SHARDING_ARG = {"s110": "1,1,0"}
@@ -401,8 +407,87 @@ def _read_chunking(acc, enc, key, cs, size, channels, dt, interner):
     return sts, (interner.add(whole) if all(t == "ok" for t in sts) else 0)
 
 
+def mesh_files(path):
+    """Files of the mesh directories m1 / m2 of a dataset: fragments (read back
+    with the package's precomputed-mesh reader: st ok | bad) and link files
+    (<label>:0, JSON {"fragments": [...]}).  Each with the sha1 of its bytes
+    (.gz files: of the inflated bytes)."""
+    import gzip as _gz
+    out = []
+    for md in MESH_DIRS:
+        root = os.path.join(path, md)
+        if not os.path.isdir(root):
+            continue
+        for fn in sorted(os.listdir(root)):
+            p = os.path.join(root, fn)
+            if not os.path.isfile(p):
+                continue
+            name = fn[:-3] if fn.endswith(".gz") else fn
+            try:
+                with (_gz.open(p, "rb") if fn.endswith(".gz") else open(p, "rb")) as f:
+                    data = f.read()
+            except (OSError, EOFError):
+                out.append({"dir": md, "name": name, "kind": "other", "st": "bad", "hash": "-",
+                            "label": -1, "frags": []})
+                continue
+            rec = {"dir": md, "name": name, "kind": "frag", "st": "bad", "hash": _sha(data), "label": -1,
+                   "frags": []}
+            m = _LINK_NAME.match(name)
+            if m:
+                rec["kind"], rec["label"] = "link", int(m.group(1))
+                try:
+                    fr = json.loads(data.decode("utf-8"))["fragments"]
+                    if isinstance(fr, list) and all(isinstance(x, str) for x in fr):
+                        rec["frags"], rec["st"] = fr, "ok"
+                except (ValueError, KeyError, TypeError):
+                    pass
+            else:
+                try:
+                    import io as _io
+                    from neuroglancer_scripts import mesh as ngmesh
+                    v, t = ngmesh.read_precomputed_mesh(_io.BytesIO(data))
+                    rec["st"] = "ok" if len(v) > 0 and len(t) > 0 else "bad"
+                except Exception:
+                    pass
+            out.append(rec)
+    return out
+
+
+def write_mesh_inputs(base, rng):
+    """One small GIfTI surface per fragment name (shapes of harness/mesh_driver.py,
+    used read-only) and the label tables as CSV files."""
+    import random
+
+    import nibabel
+    from nibabel.gifti import GiftiDataArray, GiftiImage
+
+    from . import mesh_driver
+    r = random.Random(int(rng.integers(0, 1 << 30)))
+    d = os.path.join(base, "mesh_in")
+    os.makedirs(d, exist_ok=True)
+    paths = {}
+    for name, shape in (("f1", mesh_driver.tetra), ("f2", mesh_driver.octa)):
+        v, t = shape(r)
+        gii = os.path.join(d, name + ".gii")
+        with mesh_driver.silenced():
+            nibabel.save(GiftiImage(darrays=[
+                GiftiDataArray(np.array(v, dtype=np.float32), intent="NIFTI_INTENT_POINTSET",
+                               datatype="NIFTI_TYPE_FLOAT32"),
+                GiftiDataArray(np.array(t, dtype=np.int32), intent="NIFTI_INTENT_TRIANGLE",
+                               datatype="NIFTI_TYPE_INT32")]), gii)
+        paths[name] = gii
+    for t, rows in TABLES.items():
+        p = os.path.join(d, t + ".csv")
+        with open(p, "w", newline="") as f:
+            for label, frags in rows:
+                f.write(",".join([str(label)] + frags) + "\n")
+        paths[t] = p
+    return paths
+
+
 def _empty_info():
-    return {"st": "none", "txt": "", "dtype": "-", "itemsize": 0, "channels": 0, "type": "-"}
+    return {"st": "none", "txt": "", "dtype": "-", "itemsize": 0, "channels": 0, "type": "-",
+            "mesh": "none", "core": ""}
 
 
 def snap_dir(path, interner, url=None):
@@ -411,7 +496,7 @@ def snap_dir(path, interner, url=None):
     from neuroglancer_scripts import accessor as ngacc
     from neuroglancer_scripts import chunk_encoding
     out = {"fullres": "absent", "frh": "-", "transform": "absent", "trh": "-",
-           "info": _empty_info(), "scales": [], "tree": tree_hash(path)}
+           "info": _empty_info(), "scales": [], "tree": tree_hash(path), "meshfiles": mesh_files(path)}
     if not os.path.isdir(path):
         return out
     out["fullres"], out["frh"] = _json_file(os.path.join(path, "info_fullres.json"))
@@ -425,6 +510,8 @@ def snap_dir(path, interner, url=None):
             return out
         try:
             info = json.loads(raw.decode("utf-8"))
+            if isinstance(info, dict):
+                out["info"]["mesh"] = str(info.get("mesh", "none"))
             dt = np.dtype(info["data_type"])
             channels = int(info["num_channels"])
             scales = info["scales"]
@@ -437,12 +524,15 @@ def snap_dir(path, interner, url=None):
                     raise ValueError("bad sizes")
                 grids.append((cs, size))
         except Exception:
-            out["info"] = dict(_empty_info(), st="bad")
+            out["info"] = dict(_empty_info(), st="bad", mesh=out["info"]["mesh"])
             return out
         out["info"] = {"st": "ok",
                        "txt": json.dumps(info, sort_keys=True, separators=(",", ":")),
                        "dtype": dt.name, "itemsize": int(dt.itemsize), "channels": channels,
-                       "type": str(info.get("type", "-"))}
+                       "type": str(info.get("type", "-")), "mesh": str(info.get("mesh", "none")),
+                       # the info without its mesh key (what a mesh command must leave alone)
+                       "core": json.dumps({k: v for k, v in info.items() if k != "mesh"},
+                                          sort_keys=True, separators=(",", ":"))}
         for s, enc, (cs, size) in zip(scales, encoders, grids):
             key = s["key"]
             nbytes = int(np.prod(size)) * channels * dt.itemsize
@@ -820,6 +910,11 @@ def build_args(c, env):
         return MODULES[op], [d]
     if op == "Slices":
         return MODULES[op], lay + ["--input-orientation", c["code"]] + env["stacks"][c["code"]] + [d]
+    nogz = [f for f in lay if f == "--no-gzip"]            # these tools have no --flat
+    if op == "Mesh":
+        return MODULES[op], nogz + ["--mesh-dir", c["m"], "--mesh-name", c["code"], env["mesh_in"][c["code"]], d]
+    if op == "Link":
+        return MODULES[op], nogz + [env["mesh_in"][c["m"]], d]
     if op == "AllInOne":
         m = ["--downscaling-method", c["m"]] if (explicit or c["m"] != "auto") else []
         return MODULES[op], lay + _type_enc_flags(c, explicit) + m + igs + [env["vol"], d]
@@ -953,10 +1048,14 @@ def apply_edit(c, env):
     p = os.path.join(d, "info")
     if not os.path.isfile(p):
         return 1
-    with open(p) as f:
-        info = json.load(f)
-    for s in info["scales"]:
-        if os.path.isdir(os.path.join(d, s["key"])):
+    try:
+        with open(p) as f:
+            info = json.load(f)
+        keys = [s["key"] for s in info["scales"]]
+    except (ValueError, KeyError, TypeError):
+        return 1                      # not an info a user could edit this way
+    for key in keys:
+        if os.path.isdir(os.path.join(d, key)):
             return 1
     for j, s in enumerate(info["scales"]):
         if c["sh"] in SHARDING_SPEC and env.get("shard_per_scale"):
@@ -1019,9 +1118,12 @@ def apply_rechunk(c, env):
     p = os.path.join(d, "info")
     if not os.path.isfile(p):
         return 1
-    with open(p) as f:
-        info = json.load(f)
-    if any("sharding" in s for s in info["scales"]):
+    try:
+        with open(p) as f:
+            info = json.load(f)
+        if any("sharding" in s for s in info["scales"]):
+            return 1
+    except (ValueError, KeyError, TypeError):
         return 1
     lay = LAYOUTS[env["lay"][c["d"]]]
     acc = file_accessor.FileAccessor(d, flat="--flat" in lay, gzip="--no-gzip" not in lay)
@@ -1094,7 +1196,8 @@ class Session:
         self.servers = []
         self.case = case = {"cfg": {"perfect": bool(prog["vol"].get("perfect", True)),
                                     "nall": int(prog["vol"].get("nall", 3))},
-                            "vol": volidx, "svol": {"-": 0}, "init": {}, "events": [], "_log": []}
+                            "vol": volidx, "svol": {"-": 0}, "tables": TABLES, "init": {}, "events": [],
+                            "_log": []}
         # slice stacks: one per orientation code used, built so that its documented
         # re-orientation is the volume; the EXPECTED array handed to TLC is the
         # harness' own re-orientation of the stack that was written
@@ -1109,6 +1212,8 @@ class Session:
                 back = reorient_to_ras(st, c["code"])
                 b4 = back if back.ndim == 4 else back[..., np.newaxis]
                 case["svol"][c["code"]] = it.add(np.moveaxis(b4, (0, 1, 2, 3), (3, 2, 1, 0)))
+        if any(c["op"] in ("Mesh", "Link") for c in prog["cmds"]):
+            env["mesh_in"] = write_mesh_inputs(base, rng)
         for dn in prog.get("http", []):
             srv = LoopbackServer(dirs[dn], fail_chunk_requests=1)
             env["urls"][dn] = srv.__enter__()
